@@ -55,7 +55,7 @@ def run(c):
     for i, req in enumerate(["grin_chain::types::TxHashSetRoots::validate", X + "rewindable_kernel_view", X + "TxHashSet::verify_kernel_pos_index", X + "extending"]):
         c.r1("pibd-head-after-%d" % (i + 1), V, req, sink=B + "save_body_head", via=0)
     c.r2_arg("pibd-roots-header", V, "grin_chain::types::TxHashSetRoots::validate", 1, must=["arg0.archive_header"])
-    CL = V + "::{closure#1}"
+    CL = V + "@txhashset::txhashset::extending"
     c.r1("pibd-state-validated", CL, E + "validate", via=0)
     c.r1("pibd-sums-after-validate", CL, E + "validate", sink=B + "save_block_sums", via=0)
     c.r2_arg("pibd-validate-header", CL, E + "validate", 6, must=["re:archive_header$"])
@@ -67,7 +67,7 @@ def run(c):
         c.r1("zip-head-after-%d" % (i + 1), W, req, sink=B + "save_body_head", via=0)
         c.r1("zip-replace-after-%d" % (i + 1), W, req, sink=X + "txhashset_replace", via=0)
     c.r1("zip-replace-after-commit", W, B + "commit", sink=X + "txhashset_replace", via=0)
-    WC = W + "::{closure#0}"
+    WC = W + "@txhashset::txhashset::extending"
     c.r1("zip-rewind-then-validate", WC, E + "rewind", sink=E + "validate", via=0)
     c.r1("zip-state-validated", WC, E + "validate", via=0)
     c.r2_arg("zip-validate-full", WC, E + "validate", 2, const=0)
